@@ -646,6 +646,13 @@ func (st *Stack) compactRange(first, last int, expiration *LogExpirationConfig) 
 	lockFileName = st.listFile + ".lock"
 	defer lockFile.Close()
 
+	// The list was unlocked while we were merging. If it changed in
+	// the meantime, our view of the stack is stale and writing it
+	// back would drop what others committed.
+	if ok, err := st.UpToDate(); !ok || err != nil {
+		return false, err
+	}
+
 	fn := formatName(
 		st.stack[first].MinUpdateIndex(),
 		st.stack[last].MaxUpdateIndex())
